@@ -384,8 +384,6 @@ class Oracle:
             return ANYV
         x, e = p.v, p.err
         if f == "ABS":                        # |x(t)|
-            if "abs-inf" in self.quirks and isinf(x):
-                return ANYV
             return V(abs(x), e)
         if f == "SQRT":                       # x(t) ** (1/2)
             if isnan(x):
@@ -487,10 +485,10 @@ class Oracle:
         if f in ("MIN", "MAX", "ARGMIN", "ARGMAX"):
             lo = f in ("MIN", "ARGMIN")
             best = min(p.v for p in vals) if lo else max(p.v for p in vals)
-            if "sentinel" in self.quirks and (best >= 1e300 if lo else best <= -1e300):
-                return ANYV
             if f in ("MIN", "MAX"):
                 return V(best, max(p.err for p in vals))
+            if "arg-start" in self.quirks and best == (INF if lo else -INF):
+                return ANYV
             first = next(i for i, p in enumerate(a) if p.v == best)
             eb = a[first].err
             for i, p in enumerate(a):
@@ -725,16 +723,16 @@ class P(Prop):
         (M, "TV.C02.operate_source_spaces", "operate on a string = operate on the string without its blanks (any spacing of the source)"),
         (M, "TV.C02.operate_source_starstar", "'**' written for '^'"),
         (M, "TV.C02.operate_source_reflexive", "reflexive forms 'lhs op= e' (op in + - * / ^ % !) are 'lhs = lhs op (e)'"),
-        (M, "TV.C02.aggregate_min_max", "T8: Min / Max as coded are the minimum / maximum of the vector (a value of it, nothing beyond it, NaN skipped) as soon as one value is inside the sentinels +-1e300"),
-        (M, "TV.C02.aggregate_sentinel", "T8': in general the result of Min / Max bounds every value and is a value strictly inside the sentinel, or the sentinel itself"),
+        (M, "TV.C02.aggregate_min_max", "T8: Min / Max as coded (folds from +-inf, fix 68863c7) are the minimum / maximum of the numbers of the vector at every magnitude: a non-NaN value of it, nothing beyond it, NaN skipped"),
+        (M, "TV.C02.aggregate_sentinel", "T8': on an empty or all-NaN feature Min returns +inf and Max -inf (their start values)"),
         (M, "TV.C02.operate_no_externals", "Track.operate(expr, {}) (the machine reading the dictionary of externals) is Track.operate(expr)"),
-        (M, "TV.C02.getitem_is_operate", "front end: Track[expr] is Track.operate(expr) as soon as the stripped string contains one of + - / * ^ > < ( ) = '"),
+        (M, "TV.C02.getitem_is_operate", "front end: Track[expr] is Track.operate(expr) as soon as the stripped string contains one of + - / * ^ > < ( ) = ' { (the brace since fix 396f8f9)"),
         (M, "TV.C02.operate_source_bare_minus", "a bare unary minus at the start, after '=', '(' or '{' is the parenthesised '(0-...)' form (one per application)"),
     ]
     partial = []
     open_statements = [
         "floating point: the laws of T5 (x*(1/s)=x/s, (1/x)*s=s/x) hold in exact arithmetic (shown for rationals with NaN) but only up to rounding for IEEE doubles - and not at all when the reciprocal overflows (subnormal divisor, class scalar-division-reciprocal-overflow); agreement of the computed doubles with ordinary arithmetic is decided by the transfer check against the independent Python oracle (IEEE evaluation of the documented definitions with a running error bound, relative tolerance 1e-9 at every magnitude)",
-        "the definitions of the functions (I D D2 ABS SQRT LOG DIODE SIGN EXP COS SIN TAN, SUM AVG VAR STD MSE RMSE MAD MIN MAX MEDIAN ARGMIN ARGMAX) are taken as coded in both denoteM and denote; their agreement with the documented formulas is checked by the Python oracle in the transfer check, not proved - except MIN / MAX (T8: the minimum / maximum as soon as one value is inside the sentinels +-1e300; class extremum-beyond-sentinel otherwise) - and it fails for ABS at the infinities (class abs-of-infinity)",
+        "the definitions of the functions (I D D2 ABS SQRT LOG DIODE SIGN EXP COS SIN TAN, SUM AVG VAR STD MSE RMSE MAD MIN MAX MEDIAN ARGMIN ARGMAX) are taken as coded in both denoteM and denote; their agreement with the documented formulas is checked by the Python oracle in the transfer check, not proved - except MIN / MAX (T8: the minimum / maximum of the non-NaN values at every magnitude)",
         "source strings (T7): several bare unary minuses in one string, a sign directly after + or - ('a+-b', 'a--b'), the ' shorthand and names ending with '.' are outside the proved grammar (covered by the correspondence streams expr/str); error propagation (T6) excludes unbound names, unknown function names and a function applied to a bare number token, where the machine raises another error than the tree semantics (counter-examples in Lemmas/ExprErr.lean)",
     ]
     modelled = ("Track.__evaluate (replace chain, __specialOpChar, __convertReflexOperator, __unaryOp, f( -> f@( loops, #output prefix), "
@@ -758,7 +756,7 @@ class P(Prop):
             "tracks of 1..5 observations of three kinds: small values with 0, negatives, equal values, NaN; 'scaled' = a small pattern times one "
             "magnitude anywhere between 5e-324 and 1.8e308 (subnormals, below machine epsilon, beyond 2**53, near overflow); 'wide' = independent "
             "values over the whole double range with +-0.0, +-inf, NaN; optional spaces and ** for ^; entry points Track.operate(expr), Track.op(expr), "
-            "Track[expr] (also for strings that Track.__getitem__ takes for a feature name), Track.operate(expr, {name: value}) with numbers given by "
+            "Track[expr] (function calls alone included, fix 396f8f9; a number alone is a feature name for that front end and is not sent through it), Track.operate(expr, {name: value}) with numbers given by "
             "name (an external named like a feature is compared with the model only, not judged); sequences: one or two earlier statements run on the same track, the judged one may read what they wrote. "
             "The oracle evaluates the documented definitions with IEEE doubles and a running bound on the rounding error, and judges with a relative "
             "tolerance (1e-9 of the value + 8 bounds) at every magnitude. Cases on which ordinary arithmetic gives no value and Python raises "
@@ -991,7 +989,8 @@ class P(Prop):
             for lhs in self.LHS:
                 for rep in range(3 if thorough else 1):
                     emit(t, lhs, bare=rng.random() < 0.5)
-            emit(t, None, bare=rng.random() < 0.5, via="getitem")       # Track[expr]
+            if t[0] != "num":         # Track['2']: a string that is only a number is looked up as a feature name
+                emit(t, None, bare=rng.random() < 0.5, via="getitem")       # Track[expr]
         # a parenthesis directly after a comparison operator (fix 6716f85): every `l o (p q r)` and `(p q r) o l`
         for o in "<>":
             for l in (["var", "a"], ["num", "2"], ["var", "x"], ["call", "D", ["var", "b"]]):
@@ -1022,7 +1021,7 @@ class P(Prop):
             env = self.fix_env(self.rand_env(rng, easy=rng.random() < 0.4))
             lhs = rng.choice([None, None, "c", "a", "b", "x", "y", "z"])
             c = self.mk_case(t, env, lhs, bare=rng.random() < 0.5, spaces=rng.random() < 0.2, stars=rng.random() < 0.2)
-            if rng.random() < 0.2:
+            if rng.random() < 0.2 and t[0] != "num":
                 c["via"] = "getitem"          # Track[expr] instead of Track.operate(expr)
             if self.in_domain(c):
                 out.append(c)
@@ -1056,7 +1055,7 @@ class P(Prop):
             env = self.fix_env(self.rand_env(rng, style="scaled" if rng.random() < 0.65 else "wide"))
             lhs = rng.choice([None, None, "c", "a", "b", "x", "y"])
             c = self.mk_case(t, env, lhs, bare=rng.random() < 0.5, spaces=rng.random() < 0.1, stars=rng.random() < 0.1)
-            if rng.random() < 0.2:
+            if rng.random() < 0.2 and t[0] != "num":
                 c["via"] = "getitem"
             if self.in_domain(c):
                 out.append(c)
@@ -1471,14 +1470,15 @@ class P(Prop):
         return m or self.unchanged(env, out, except_name=lhs)
 
     # ---------------------------------------------------------------- known findings
-    # documented definition vs code, at the ends of the double range (each is a class of known_findings.json):
-    #   abs-inf      RECTIFIER is coded -x*(x<0) + x*(x>0): |+-inf| comes out as NaN (inf*False = NaN)
-    #   sentinel     MIN / MAX / ARGMIN / ARGMAX start from +-1e300: values beyond the sentinel are not seen
+    # documented definition vs code (a class of known_findings.json):
     #   reciprocal   x/number is coded x*(1.0/number) and number/x as (1.0/x)*number: when the reciprocal overflows
     #                (|divisor| < 5.6e-309, a subnormal) the quotient comes out as inf / NaN although it is representable
-    #   (front end) Track[expr] evaluates expr only when it contains one of + - / * ^ > < ( ) = ': a function call alone
-    #                ('SUM{a}', 'D{a}') or a number alone is taken for a feature name (class getitem-expression-taken-for-a-name)
-    QUIRKS = {"abs-inf": "abs-of-infinity", "sentinel": "extremum-beyond-sentinel", "reciprocal": "scalar-division-reciprocal-overflow"}
+    # (ABS of an infinity, MIN/MAX/ARGMIN/ARGMAX beyond +-1e300 and Track['SUM{a}'] - classes of the previous round -
+    #  are repaired: 8378be5, 68863c7, 396f8f9; they are ordinary judged inputs, witnesses corpus/C02/fixed-*)
+    #   arg-start    ARGMIN / ARGMAX keep index 0 unless a value is strictly below +inf / above -inf: when the extremum of the
+    #                numbers is that infinity itself and observation 0 is NaN (or there is a NaN before it), the index
+    #                of a NaN comes back (residual of fix 68863c7; MIN / MAX themselves are right)
+    QUIRKS = {"reciprocal": "scalar-division-reciprocal-overflow", "arg-start": "argextremum-equal-to-start-value"}
 
     def classify(self, case, impl_out, msg):
         """a failing case belongs to a class iff leaving exactly that discrepancy unjudged makes the oracle accept the
@@ -1486,20 +1486,12 @@ class P(Prop):
         in corpus/C02/d21-*, d22-*)"""
         if case.get("kind") not in ("expr", "op") or not msg or not isinstance(impl_out, dict) or "err" in impl_out:
             return None
-        if (case.get("via") == "getitem" and not any(ch in case["expr"] for ch in "+-/*^><()='")
-                and impl_out.get("status") == "err:AnalyticalFeatureError"):
-            return "getitem-expression-taken-for-a-name"
         for q, name in self.QUIRKS.items():
             try:
                 if self.judge(case, impl_out, quirks=(q,)) is None:
                     return name
             except Exception:
                 pass
-        try:        # several of them in one expression (ABS of an infinity under a number/feature division, ...)
-            if self.judge(case, impl_out, quirks=tuple(self.QUIRKS)) is None:
-                return next(iter(self.QUIRKS.values()))
-        except Exception:
-            pass
         return None
 
     _listed = None
